@@ -256,7 +256,8 @@ fn get_dvar_bound(
     let (lower, upper) = match (l.get(var_name), u.get(var_name)) {
         (Some(&lower), None) => (lower, f64::INFINITY),
         (None, Some(&upper)) => {
-            if upper <= 0.0 {
+            // a *negative* upper bound without a lower bound opens the lower bound
+            if upper < 0.0 {
                 (f64::NEG_INFINITY, upper)
             } else {
                 (0.0, upper)
